@@ -61,6 +61,7 @@ def run(ctx):
     out = SP.run_streams(ctx, MASK, monitor, 'naive-contract', [
         ('G-sim-naive', 220, 4000, dict(algo='naive')),
         ('G-sim-starter', 160, 3000, dict(algo='starter')),
+        ('G-sim-saturate-naive', 60, 1000, dict(saturate='naive')),
         ('G-sim-naive-siblings', 80, 1500, dict(abandon='naive')),
         ('G-sim-starter-siblings', 40, 800, dict(abandon='starter')),
         ('G-sim-naive-branches', 40, 800, dict(branches='naive')),
